@@ -175,6 +175,8 @@ class Case:
         self.memo = {}
         self.cond_cache = {}
         self.atom_names = {}
+        self.atom_info = {}     # atom id -> (function name, [arg RFs])
+        self.atom_term = {}     # atom id -> representative z3 term
         self.natoms = 0
 
     def new_atom(self, desc):
@@ -233,6 +235,7 @@ class Case:
                 self.int_cache[k] = ("neg", uid)
                 return ("neg", uid)
         uid = ("int", self.new_atom("int:" + _short(t)))
+        self.atom_term[uid] = z3.ToReal(t)
         self.int_reps.append((t, uid))
         self.int_cache[k] = uid
         return uid
@@ -349,6 +352,12 @@ class Case:
         if k == z3.Z3_OP_ITE:
             c = t.arg(0)
             e = self.entails(c)
+            if e is None:
+                c2 = self.normalised_condition(c)
+                if not c2.eq(c):
+                    e = self.entails(c2)
+                    if e is None:
+                        c = c2
             if e is True:
                 return self.norm(t.arg(1))
             if e is False:
@@ -376,6 +385,9 @@ class Case:
         v = _builtin_value(d.name(), args)
         if v is not None:
             return RF(Poly.const(v))
+        rw = self.rewrite_app(d.name(), args, t)
+        if rw is not None:
+            return rw
         lst = self.apps.setdefault(name, [])
         for (oargs, aid) in lst:
             ok = True
@@ -384,14 +396,219 @@ class Case:
                     if not (isinstance(y, tuple) and x[1].eq(y[1])):
                         ok = False
                         break
-                elif isinstance(y, tuple) or not x.equals(y):
+                elif isinstance(y, tuple) or not self.rf_equal(x, y):
                     ok = False
                     break
             if ok:
                 return RF(Poly.atom(aid))
         aid = ("app", self.new_atom(_short(t)))
         lst.append((args, aid))
+        self.atom_info[aid] = (d.name(), args)
+        self.atom_term[aid] = t
         return RF(Poly.atom(aid))
+
+    def poly_to_term(self, p):
+        terms = []
+        for mono, c in p.d.items():
+            t = z3.RealVal(str(c))
+            for atom, e in mono:
+                at = self.atom_term.get(atom)
+                if at is None:
+                    raise GiveUp("atom without representative term")
+                for _ in range(e):
+                    t = t * at
+            terms.append(t)
+        return z3.Sum(terms) if terms else z3.RealVal(0)
+
+    def rf_to_term(self, rf):
+        n = self.poly_to_term(rf.n)
+        if rf.d.is_const():
+            return n if rf.d.const_value() == 1 else n / z3.RealVal(str(rf.d.const_value()))
+        return n / self.poly_to_term(rf.d)
+
+    def normalised_condition(self, c):
+        """Rebuild a real comparison with both sides normalised (log/exp/pow rules applied), so
+        that the solver sees e.g. z[n] as zm.  Anything else is returned unchanged."""
+        try:
+            if z3.is_app(c) and c.num_args() == 2 and c.arg(0).sort().kind() == z3.Z3_REAL_SORT:
+                k = c.decl().kind()
+                ops = {z3.Z3_OP_LT: lambda a, b: a < b, z3.Z3_OP_LE: lambda a, b: a <= b, z3.Z3_OP_GT: lambda a, b: a > b,
+                       z3.Z3_OP_GE: lambda a, b: a >= b, z3.Z3_OP_EQ: lambda a, b: a == b}
+                if k in ops:
+                    a, b = self.norm(c.arg(0)), self.norm(c.arg(1))
+                    return ops[k](self.rf_to_term(a), self.rf_to_term(b))
+        except (NeedSplit, GiveUp):
+            pass
+        return c
+
+    # ---- named axioms used as rewrite rules (A8): log/exp inverse pair, integer powers,
+    #      arctan(1) = pi/4
+    def _single_monomial(self, p):
+        if len(p.d) != 1:
+            return None
+        (m, c), = p.d.items()
+        return m, c
+
+    def rewrite_app(self, name, args, t=None):
+        if name == "cpow_re" and t is not None:
+            # np.power(b, e, dtype=complex).real = pow(b, e) for b > 0 (A8 instance), decided here
+            b = t.arg(0)
+            if self.entails(b > 0) is True or self.entails(self.normalised_condition(b > 0)) is True:
+                pw = z3.Function("pow", z3.RealSort(), z3.RealSort(), z3.RealSort())
+                return self.norm(pw(t.arg(0), t.arg(1)))
+        if name == "pow" and len(args) == 2 and isinstance(args[0], RF) and isinstance(args[1], RF) \
+                and args[1].n.is_const() and args[1].d.is_const() and args[0].d.is_const():
+            # pow(a^k, p/q) = a^(k*p/q) for a positive atom a when k*p/q is an integer (A8)
+            mn = self._single_monomial(args[0].n)
+            e = args[1].n.const_value() / args[1].d.const_value()
+            if mn is not None and mn[1] == args[0].d.const_value() and len(mn[0]) == 1:
+                atom, k = mn[0][0]
+                ke = e * k
+                if ke.denominator == 1 and abs(ke.numerator) <= 12 and k > 1:
+                    a = RF(Poly.atom(atom))
+                    r = RF(Poly.const(1))
+                    for _ in range(abs(ke.numerator)):
+                        r = r * a
+                    return r if ke >= 0 else RF(Poly.const(1)) / r
+        if name == "log" and len(args) == 1 and isinstance(args[0], RF):
+            # log( prod exp(t_i)^k_i ) = sum k_i t_i : search small exponent vectors over the exp
+            # atoms that occur in the (possibly unreduced) argument; test by cross-multiplication
+            a = args[0]
+            exps = [x for x in (a.n.atoms() | a.d.atoms()) if self.atom_info.get(x, ("",))[0] == "exp"]
+            if 0 < len(exps) <= 3:
+                import itertools
+                for vec in sorted(itertools.product(range(-2, 3), repeat=len(exps)), key=lambda v: sum(abs(q) for q in v)):
+                    if not any(vec):
+                        continue
+                    num_m, den_m = Poly.const(1), Poly.const(1)
+                    for atom, k in zip(exps, vec):
+                        for _ in range(abs(k)):
+                            if k > 0:
+                                num_m = num_m * Poly.atom(atom)
+                            else:
+                                den_m = den_m * Poly.atom(atom)
+                    if (a.n * den_m - a.d * num_m).is_zero():
+                        tot = RF(Poly())
+                        for atom, k in zip(exps, vec):
+                            t0 = self.atom_info[atom][1][0]
+                            tot = tot + RF(t0.n.scale(k), t0.d)
+                        return tot
+        if name == "exp" and len(args) == 1 and isinstance(args[0], RF):
+            a = args[0]
+            mn = self._single_monomial(a.n)
+            if mn is not None and a.d.is_const() and mn[1] == a.d.const_value() and len(mn[0]) == 1 and mn[0][0][1] == 1:
+                info = self.atom_info.get(mn[0][0][0])
+                if info is not None and info[0] == "log":
+                    return info[1][0]
+        if name == "pow" and len(args) == 2 and isinstance(args[1], RF) and args[1].n.is_const() and args[1].d.is_const():
+            e = args[1].n.const_value() / args[1].d.const_value()
+            if e.denominator == 1 and abs(e.numerator) <= 8:
+                r = RF(Poly.const(1))
+                for _ in range(abs(e.numerator)):
+                    r = r * args[0]
+                return r if e >= 0 else RF(Poly.const(1)) / r
+        if name == "arctan" and len(args) == 1 and _is_const(args[0], 1):
+            return self.norm(z3.Real("pi")) * RF(Poly.const(Fraction(1, 4)))
+        return None
+
+    # ---- power products: pow(b,e1)*pow(b,e2) = pow(b,e1+e2), b^k*pow(b,e) = pow(b,e+k), sqrt(a)^2 = a
+    def combine_pows(self, poly):
+        changed = False
+        out = Poly()
+        for mono, c in poly.d.items():
+            groups = []   # (base RF, exponent RF)
+            rest = []
+            for atom, k in mono:
+                info = self.atom_info.get(atom)
+                if info is not None and info[0] == "pow":
+                    groups.append([info[1][0], RF(info[1][1].n.scale(k), info[1][1].d)])
+                elif info is not None and info[0] == "sqrt" and k >= 2:
+                    changed = True
+                    for _ in range(k // 2):
+                        rest.append(("rf", info[1][0]))
+                    if k % 2:
+                        rest.append((atom, 1))
+                else:
+                    rest.append((atom, k))
+            if not groups and not changed:
+                out = out + Poly({mono: c})
+                continue
+            # merge groups with equal bases
+            merged = []
+            for b, e in groups:
+                for g in merged:
+                    if g[0].equals(b):
+                        g[1] = g[1] + e
+                        changed = True
+                        break
+                else:
+                    merged.append([b, e])
+            # absorb plain occurrences of a base that is a single atom
+            rest2 = []
+            for item in rest:
+                if item[0] == "rf":
+                    rest2.append(item)
+                    continue
+                atom, k = item
+                hit = False
+                for g in merged:
+                    if g[0].equals(RF(Poly.atom(atom))):
+                        g[1] = g[1] + RF(Poly.const(k))
+                        hit = True
+                        changed = True
+                        break
+                if not hit:
+                    rest2.append(item)
+            term = RF(Poly.const(c))
+            for item in rest2:
+                if item[0] == "rf":
+                    term = term * item[1]
+                else:
+                    a = RF(Poly.atom(item[0]))
+                    for _ in range(item[1]):
+                        term = term * a
+            for b, e in merged:
+                if e.n.is_zero():
+                    changed = True
+                    continue
+                term = term * self.pow_atom(b, e)
+            if not term.d.is_const():
+                # denominators would need a common multiple: give this monomial up unchanged
+                out = out + Poly({mono: c})
+                continue
+            out = out + term.n.scale(1 / term.d.const_value())
+        return out, changed
+
+    def pow_atom(self, base, e):
+        if e.n.is_const() and e.d.is_const():
+            ev = e.n.const_value() / e.d.const_value()
+            if ev.denominator == 1 and abs(ev.numerator) <= 8:
+                r = RF(Poly.const(1))
+                for _ in range(abs(ev.numerator)):
+                    r = r * base
+                return r if ev >= 0 else RF(Poly.const(1)) / r
+        lst = self.apps.setdefault("pow/comb", [])
+        for (oargs, aid) in lst:
+            if oargs[0].equals(base) and oargs[1].equals(e):
+                return RF(Poly.atom(aid))
+        aid = ("app", self.new_atom("pow(%s ; %s)" % (base.n, e.n)))
+        lst.append(([base, e], aid))
+        self.atom_info[aid] = ("pow", [base, e])
+        return RF(Poly.atom(aid))
+
+    def is_zero(self, poly):
+        if poly.is_zero():
+            return True
+        for _ in range(4):
+            poly, ch = self.combine_pows(poly)
+            if poly.is_zero():
+                return True
+            if not ch:
+                break
+        return False
+
+    def rf_equal(self, a, b):
+        return self.is_zero(a.n * b.d - b.n * a.d)
 
 
 def _is_const(rf, c):
@@ -469,7 +686,7 @@ def prove(pc, hyps, goal, timeout_s=60, max_cases=4000):
             for (a, b) in eqs:
                 ra, rb = case.norm(a), case.norm(b)
                 diff = ra.n * rb.d - rb.n * ra.d
-                if not diff.is_zero():
+                if not case.is_zero(diff):
                     m = None
                     try:
                         if s.check() == z3.sat:
